@@ -23,7 +23,7 @@ def run(ck):
     if not ck.violations:
         conslib.replay_conformance(ck, ck.binary, "fork", hists[: (60 if quick else 1500)], ["C01_"], conformance=not quick)
     if not ck.violations:
-        conslib.attack_replays(ck, ck.binary, ["C01_"])
+        conslib.attack_replays(ck, ck.binary, ["C01_"], extra=([] if quick else conslib.fresh_attacks(ck, ck.seed + 100)))
     a = ck.cov["antecedents"]
     if not ck.violations and (a.get("decisions", 0) < 20 or not a.get("byz_deliveries")):
         raise Inconclusive("vacuous run: %s" % a)
